@@ -109,7 +109,7 @@ class C03(Scenario):
         for c in cuts + [n]:
             steps.append({"op": "batch", "upto": c})
             if s.chance(0.2):
-                steps.append({"op": "interrupt", "how": s.pick(["iadd_empty", "iadd_zero", "add_empty", "empty_add", "pickle", "copy"])})
+                steps.append({"op": "interrupt", "how": s.pick(["iadd_empty", "iadd_zero", "add_empty", "empty_add", "pickle", "copy", "iadd_zero_x600"])})
         return {"spec": sp, "records": [specmod.enc_record(r) for r in recs], "weights": weights, "box": box,
                 "steps": steps, "regime": regime,
                 # the value templates of the sparse containers were used as aggregators themselves before (both trees alike)
@@ -163,6 +163,11 @@ class C03(Scenario):
                         return x
                     if how == "iadd_zero":
                         x += x.zero()
+                        return x
+                    if how == "iadd_zero_x600":
+                        z = x.zero()
+                        for _ in range(600):
+                            x += z
                         return x
                     if how == "add_empty":
                         return x + w.build(0).value
